@@ -295,10 +295,46 @@ func (e *Enc) instrWrites(in ssa.Instruction, f *Frame) []string {
 var mayReadCache = map[*ssa.Function]map[string]hkey{}
 var externReads = map[string]func(fn *ssa.Function) []hkey{}
 
+// localDerived: the value is (a slice of / pointer into) memory allocated by the same function,
+// so reading it does not make the function depend on the caller's heap.
+func localDerived(v ssa.Value, seen map[ssa.Value]bool) bool {
+	if seen[v] {
+		return true
+	}
+	seen[v] = true
+	switch v := v.(type) {
+	case *ssa.Alloc, *ssa.MakeSlice:
+		return true
+	case *ssa.Slice:
+		return localDerived(v.X, seen)
+	case *ssa.IndexAddr:
+		return localDerived(v.X, seen)
+	case *ssa.FieldAddr:
+		return localDerived(v.X, seen)
+	case *ssa.Phi:
+		for _, e := range v.Edges {
+			if !localDerived(e, seen) {
+				return false
+			}
+		}
+		return true
+	case *ssa.Const:
+		return v.Value == nil
+	case *ssa.Call:
+		if bi, ok := v.Call.Value.(*ssa.Builtin); ok && bi.Name() == "append" {
+			return localDerived(v.Call.Args[0], seen)
+		}
+	}
+	return false
+}
+
 func directReads(in ssa.Instruction) []hkey {
 	switch in := in.(type) {
 	case *ssa.UnOp:
 		if in.Op.String() == "*" {
+			if localDerived(in.X, map[ssa.Value]bool{}) {
+				return nil
+			}
 			return rootKeys(in.X)
 		}
 	case *ssa.Lookup:
@@ -319,7 +355,7 @@ func directReads(in ssa.Instruction) []hkey {
 			case "append", "copy":
 				var out []hkey
 				for _, a := range in.Call.Args {
-					if sl, ok := a.Type().Underlying().(*types.Slice); ok {
+					if sl, ok := a.Type().Underlying().(*types.Slice); ok && !localDerived(a, map[ssa.Value]bool{}) {
 						out = append(out, hkey{kind: 'A', t: sl.Elem()})
 					}
 				}
